@@ -8,7 +8,7 @@ unbalanced parentheses."""
 import math
 import re
 
-from .. import core, enum, probes
+from .. import core, forms, enum, probes
 
 ID = 'C19'
 RULE = ('evaluate: every token sequence up to the bound over 1 2 .5 7 + - * / \\ ( ) space (exhaustive, partitioned), random '
@@ -28,6 +28,9 @@ BOUNDS = {'quick': {'eval_len': 5, 'extract_len': 4}, 'thorough': {'eval_len': 6
 FLOORS = {'quick': {'eval:intdiv': 1500, 'eval:token-enum': 15000, 'eval:mutation': 5000, 'eval:enum': 200000, 'eval:random': 5000, 'eval:garbage': 5000, 'extract:enum': 100000},
           'thorough': {'eval:intdiv': 1500, 'eval:token-enum': 2500000, 'eval:mutation': 100000, 'eval:enum': 3000000, 'eval:random': 100000, 'eval:garbage': 100000, 'extract:enum': 2000000}}
 REQUIRED_MONITORS = ['oracle:value', 'oracle:malformed', 'oracle:extract-range']
+
+
+FORM = [0]
 
 
 def describe(tier):
@@ -177,7 +180,8 @@ def check_eval(s, cls, ctx, api):
         exp = ('z',)
     except OverflowError:
         exp = ('u',)
-    r = core.call(evaluate, s)
+    FORM[0] += 1
+    r = core.call(evaluate, forms.Shown(s) if FORM[0] % 9 == 0 else s)       # (every ninth expression as a str subclass that shows something else)
     if r[0] == 'ok':
         act = ('v', r[1])
     elif isinstance(r[1], MEE):
@@ -245,7 +249,8 @@ def balanced(sub):
 def check_extract(s, pos, opt, cls, ctx, api):
     _, extract, _ = api
     ctx.ev(cls)
-    r = core.call(extract, s, pos, opt)
+    FORM[0] += 1
+    r = core.call(extract, forms.Shown(s), pos, forms.mapping_form(opt, FORM[0] // 9) if isinstance(opt, dict) else opt) if FORM[0] % 9 == 0 else core.call(extract, s, pos, opt)
     case = {'fn': 'extract', 's': s, 'pos': pos, 'opt': opt}
     ctx.mon('oracle:extract-range')
     if r[0] == 'exc':
